@@ -515,6 +515,23 @@ fn gen_bridge(mut input: ItemMod) -> ItemMod {
                 }
             }
         }
+
+        Item::Trait(t) => {
+            // Diplomat attributes on a trait and on its methods (`diplomat::attr`, `diplomat::rust_link`, ...)
+            // are read by diplomat-tool; rustc must not see them.
+            let _attrs = AttributeInfo::extract(&mut t.attrs);
+            for item in &mut t.items {
+                if let syn::TraitItem::Fn(ref mut m) = *item {
+                    let _attrs = AttributeInfo::extract(&mut m.attrs);
+                    for i in m.sig.inputs.iter_mut() {
+                        let _attrs = match i {
+                            syn::FnArg::Receiver(s) => AttributeInfo::extract(&mut s.attrs),
+                            syn::FnArg::Typed(t) => AttributeInfo::extract(&mut t.attrs),
+                        };
+                    }
+                }
+            }
+        }
         _ => (),
     });
 
